@@ -1144,10 +1144,21 @@ class Variable(GlobalValue):
         self.value = value
 
     def __str__(self):
-        return (
+        txt = (
             f"{self.binding} variable {self.name} "
             + f"({self.amount} bytes aligned at {self.alignment})"
         )
+        if self.value:
+            parts = []
+            for part in self.value:
+                if isinstance(part, bytes):
+                    data = hexlify(part).decode("ascii")
+                    parts.append(f"'{data}'")
+                else:
+                    # Address of a label, (ptr, name)
+                    parts.append(f"&{part[1]}")
+            txt += " = " + ", ".join(parts)
+        return txt
 
 
 class Parameter(LocalValue):
